@@ -149,10 +149,49 @@ class Fn(TryState, Loops, Stmts):
         self.ntmp = 0
         self.quiet = 0
         self.result = result            # (value text, type, env, node) -> Lean text of what the function returns
+        self.seams = {}                 # id(first statement) -> (definition name, does it run to the end of the body)
+        self.result_type = None
         self.loop_init()
 
     def note(self, msg):
         if not self.quiet: self.u.dropped.add(msg)
+
+    # ---------------- seams: a top-level statement (or the rest of the body from a statement on) as a definition of its own
+    def block(self, stmts, env, k, live):
+        if stmts and self.seams and id(stmts[0]) in self.seams and not self.loops and not getattr(self, 'try_depth', 0):
+            name, to_end = self.seams[id(stmts[0])]
+            return self.outlined(name, to_end, stmts, env, k, live)
+        return super().block(stmts, env, k, live)
+
+    def outlined(self, name, to_end, stmts, env, k, live):
+        part, rest = (list(stmts), []) if to_end else ([stmts[0]], list(stmts[1:]))
+        seams, self.seams = self.seams, {}
+        try:
+            live_rest = self.live_after(rest, live)
+            jvars = [] if to_end else self.join_vars([part], env, live_rest)
+            used = reads_before_writes(part)[0] | set(jvars) | ({self.STATE} if self.writes else set())
+            params = [v for v in env if v in used and env[v] not in (EMPTY, DDEMPTY, NONE) and v not in self.u.modules]
+            sig = ' '.join(f'({self.lvar(v)} : {lean_type(env[v])})' for v in params)
+            args = ' '.join(self.lvar(v) for v in params)
+            if to_end:
+                tree = super().block(part, dict(env), k, live)
+                ty = self.result_type
+                call = ('raw', f'{name} ops {args}')
+            else:
+                trees, types, views = self.run_join([lambda kk: self._seq(part, dict(env), kk, set(jvars))], env, jvars, part[0])
+                tree = trees[0]
+                ty = tuple_type(types)
+                env2 = dict(env)
+                for v, t in zip(jvars, types): env2[v] = t
+                env2.update(views)
+        finally:
+            self.seams = seams
+        if self.ret_types is None:
+            doc = f'/-- `Checker.check_plurals`, lines {part[0].lineno}–{part[-1].end_lineno} of the current source ({self.u.seam_docs.get(name, name)}) -/\n'
+            self.u.defs[name] = (doc + f'def {name} {{E : Type}} (ops : CheckPlurals.Py.ExprOps E) {sig} :\n    Except Py.Exc {ty} :=\n' +
+                                 '\n'.join(render(tree, 1, STYLE)) + '\n')
+        if to_end: return call
+        return joinc(tuple_pat([self.lvar(v) for v in jvars]), ('raw', f'{name} ops {args}'), ty, self.block(rest, env2, k, live))
 
     def live_after(self, rest, live):
         return reads_before_writes(rest)[0] | live | ({self.STATE} if self.writes else set())
@@ -649,6 +688,10 @@ def module_imports(tree):
 class Unit:
     def __init__(self):
         self.dropped = set(); self.imports = {}; self.uses_parse = False; self.uses_format_range = False
+        self.defs = {}; self.modules = set(MODULES)
+        self.seam_docs = {'check_plurals_registry': 'the comparison with the plural forms the language registry lists',
+                          'check_plurals_window': 'the 200-value window loop with its `else:` and the two arithmetic handlers',
+                          'check_plurals_gaps': 'codomain / period gap analysis and the final loop'}
 
 def gen_format_range(repo, u):
     tree = ast.parse(open(os.path.join(repo, 'lib/misc.py'), encoding='utf-8').read())
@@ -716,8 +759,19 @@ def gen_tail(repo, u):
     def result(text, ty, env_, node):
         if ty != NONE: bad(node, 'check_plurals returns a value')
         return '(out, ' + coerce(lname('ctx_plural_preimage'), env_['ctx_plural_preimage'], OPT(PREIMAGE), node) + ')'
+    seams = {}
+    for i, st in enumerate(body):
+        if isinstance(st, ast.If) and ast.unparse(st.test) == 'correct_plural_forms is not None' and 'check_plurals_registry' not in [v[0] for v in seams.values()]:
+            seams[id(st)] = ('check_plurals_registry', False)
+        if isinstance(st, ast.Try) and 'check_plurals_window' not in [v[0] for v in seams.values()]:
+            seams[id(st)] = ('check_plurals_window', False)
+            if i + 1 < len(body): seams[id(body[i + 1])] = ('check_plurals_gaps', True)
+    if sorted(v[0] for v in seams.values()) != ['check_plurals_gaps', 'check_plurals_registry', 'check_plurals_window']:
+        raise Untranslatable('the seams of check_plurals (registry comparison, window loop, gap analysis) were not found')
     def run(probe):
         fn = Fn(u, 'check_plurals', result, True)
+        fn.seams = dict(seams)
+        fn.result_type = '(List TagCall × Option CheckPlurals.Preimage)'
         if probe: fn.ret_types = []
         return fn, fn.block(list(body), dict(env), fn.fall_off, {'ctx_plural_preimage'})
     fn, _ = run(True)
@@ -725,7 +779,8 @@ def gen_tail(repo, u):
     fn, tree_ = run(False)
     params = ' '.join(f'({"out" if p == "self" else lname(p)} : {lean_type(t)})' for p, t in TAIL_PARAMS)
     first = f.body[k].lineno
-    return (f'/-- `lib/check/__init__.py` `Checker.check_plurals`, lines {first}–{f.end_lineno} of the current source (everything after the header value has parsed), as a function of\n'
+    pieces = ''.join(u.defs[n_] + '\n' for n_ in ('check_plurals_registry', 'check_plurals_window', 'check_plurals_gaps'))
+    return pieces + (f'/-- `lib/check/__init__.py` `Checker.check_plurals`, lines {first}–{f.end_lineno} of the current source (everything after the header value has parsed), as a function of\n'
             '    the variables live there; `out`: the tag calls so far; the result: (tag calls, `ctx.plural_preimage`) -/\n'
             f'def check_plurals_tail {{E : Type}} (ops : CheckPlurals.Py.ExprOps E) {params} :\n'
             '    Except Py.Exc (List TagCall × Option CheckPlurals.Preimage) :=\n' + '\n'.join(render(tree_, 1, STYLE)) + '\n')
